@@ -209,7 +209,7 @@ SOUND = {"NR10", "NR11", "NR12", "NR13", "NR14", "NR21", "NR22", "NR23", "NR24",
          "NR44", "NR50", "NR51"}
 
 
-def related(cls, a, b):
+def related(cls, a, b, kind="mbc1"):
     """documented effect relation: may a write to address a (of class cls) change what a read of address b returns?"""
     name, lo, hi = cls[0], cls[1], cls[2]
 
@@ -219,7 +219,13 @@ def related(cls, a, b):
     if name == "cart-rom":
         return z3.Or(rng(0x0000, 0x7FFF), rng(0xA000, 0xBFFF))
     if name == "cart-ram":
-        return rng(0xA000, 0xBFFF)
+        if kind == "none":
+            return z3.BoolVal(False)
+        if kind == "mbc2":          # 512 cells echoed over the window
+            return z3.And(rng(0xA000, 0xBFFF), ((b - a) & 0x01FF) == 0)
+        if kind == "mbc3":          # a clock register selected by the RAM bank register is visible at every address of the window
+            return rng(0xA000, 0xBFFF)
+        return own
     if name == "wram":
         return z3.Or(own, b == a + 0x2000)
     if name == "echo":
@@ -270,7 +276,7 @@ def effect_task(kind, cls):
             r1s = merge_outs(eng, call(ctx, eng, sp.fork(), M + "Read", [m, b]))
             for (s0, r0) in r0s:
                 for (s1, r1) in r1s:
-                    viol.append(z3.And(s0.pcond(), s1.pcond(), z3.Not(related(cls, a, b)), r0 != r1))
+                    viol.append(z3.And(s0.pcond(), s1.pcond(), z3.Not(related(cls, a, b, kind)), r0 != r1))
         ob = lem.add("lemma:effect[%s]:write-%s-changes-only-documented-locations" % (kind, name), z3.Or(*viol) if viol else z3.BoolVal(True),
                      info={"detail": "write class %s %04X-%04X; read address b symbolic over 0000-FFFF" % (name, lo, hi)})
         if viol and len(r0s) == 1 and len(posts) == 1:
